@@ -253,7 +253,9 @@ class PluginGen(object):
         # exact frames only: the generator's view of the registry may lag behind the real one
         # (it does not predict whether an update is accepted), so nothing may depend on margins
         if self.exactOnly:
-            gen.useInch = gen.useRel = gen.useG92 = gen.useArcs = False
+            gen.useInch = gen.useRel = gen.useG92 = False
+        # arcs carry a classification computed from the generator's (possibly stale) registry view
+        gen.useArcs = False
         gen.lateRegions = False
         prog = gen.build()
         steps = list(prog.steps)
